@@ -358,7 +358,10 @@ inductive Res where
 /-- the first statement of `process_pdu`: a PDU from the receiver is progress -/
 def pduArrived (s : State) (now : Nat) : State :=
   if s.sendState == .SendEof then
-    { s with timer := { s.timer with inactivity := s.timer.inactivity.reset now } } else s
+    -- a suspended transaction's timers stay stopped until `resume` re-arms them
+    { s with timer := { s.timer with inactivity :=
+        if s.state == .Suspended then (s.timer.inactivity.reset now).pause now else s.timer.inactivity.reset now } }
+  else s
 
 /-- the rest of `process_pdu` -/
 def processPduBody (s : State) (p : Pdu) (now : Nat) : State × Res :=
@@ -378,7 +381,9 @@ def processPduBody (s : State) (p : Pdu) (now : Nat) : State × Res :=
       if a.directive == .EoF then
         let s := { s with timer := { s.timer with ack := s.timer.ack.pause now } }
         let s := if s.sendState == .Cancelled then
-            { s with timer := { s.timer with inactivity := s.timer.inactivity.restart now } } else s
+            { s with timer := { s.timer with inactivity :=
+                if s.state == .Suspended then (s.timer.inactivity.restart now).pause now
+                else s.timer.inactivity.restart now } } else s
         (s, .ok)
       else (s, .unexpected)
     | .keepAlive g => ({ s with rxProgress := g }, .ok)
